@@ -288,6 +288,7 @@ def execute(seed, cfg):
                nontrivial=(sched.overlaps >= 2 and nsucc > 0))
     thr.S.s = None
     CTX.world = None
+    thr.uninstall_thread_seams()
     return res
 
 
